@@ -127,6 +127,12 @@ CHECKS.update({
             "Exhaustive over the bytes of the last <=4 change sets of each history; histories are sampled. The MANIFEST code runs without a DB around it (tag-guarded accessor).", "3/C17"),
 })
 
+CHECKS.update({
+    "C16": ("fault_enumeration", "deterministic simulation producing real logs + production iterate over the image + exhaustive single-byte corruption of the log tails",
+            "Histories produce a real WAL and value-log files (plain or encrypted); the production logFile.iterate over the imaged files must deliver exactly records equal to the model's writes (values directly or through value pointers), in transaction units and commit order; then one byte is flipped at every position of the last 160 bytes of every log and no altered record may be delivered, the delivery staying a prefix of the intact one.",
+            "Exhaustive over the byte positions of each log tail; histories are sampled. Runs without Open's replay (tag-guarded accessor to iterate); Open-level recovery of damaged logs is C09.", "3/C16"),
+})
+
 PENDING = {}  # property -> reason while not yet implemented
 
 def main():
